@@ -113,6 +113,9 @@ func current() *G {
 	return nil
 }
 
+// Current: the shim goroutine the caller runs in (nil: not started through the shim).
+func Current() *G { return current() }
+
 func NewControlled() *Ctl {
 	return &Ctl{Controlled: true, Base: time.Date(2030, 1, 1, 0, 0, 0, 0, time.UTC), report: make(chan *G, 64), Timeout: 30 * time.Second}
 }
